@@ -85,6 +85,8 @@ def _bins_for(shape, kind, offset=0.0):
 
 def _digest(ds):
     return (np.asarray(np.ma.getdata(ds.value), dtype=float).tobytes(), np.asarray(np.ma.getdata(ds.error), dtype=float).tobytes(),
+            np.ma.getmaskarray(ds.value).tobytes() if isinstance(ds.value, np.ma.MaskedArray) else b'',
+            np.ma.getmaskarray(ds.error).tobytes() if isinstance(ds.error, np.ma.MaskedArray) else b'',
             np.shape(ds.value), tuple((k, np.asarray(v, dtype=float).tobytes()) for k, v in ds.bins.items()), ds.name, ds.what)
 
 
@@ -232,6 +234,7 @@ class Recorder:
         self.pool = []
         self.bufs = []        # array objects, buffer id = position + 1
         self.tok = {}         # buffer id -> data token
+        self.mtok = {}        # buffer id -> mask bytes as last observed
         self.digests = {}     # data digest -> token
         self.recs = []        # records of the pool as last observed
         self.steps = []       # JSON steps for DatasetHeapTrace
@@ -274,6 +277,12 @@ class Recorder:
         ct = []
         for b, arr in enumerate(self.bufs, 1):
             t = self.token(arr)
+            # the mask of a masked array is part of what the array says: if the mask of an array that existed before this
+            # step changed, its content changed (reported with a token of its own)
+            mk = np.ma.getmaskarray(arr).tobytes() if isinstance(arr, np.ma.MaskedArray) else b''
+            if b <= nold and self.mtok.get(b, mk) != mk:
+                t = self.digests.setdefault(b'mask-changed' + mk + np.asarray(np.ma.getdata(arr), dtype=float).tobytes(), len(self.digests) + 1)
+            self.mtok[b] = mk
             if self.tok.get(b) != t:
                 ct.append([b, t])
                 self.tok[b] = t
@@ -399,7 +408,8 @@ def run_heap_case(case, tid=1):
                 elif op == 'mask':
                     src = P[st['i'] - 1]
                     m = np.zeros(np.shape(src.value), dtype=bool)
-                    m.reshape(-1)[:1] = True
+                    if m.size:
+                        m.reshape(-1)[len(P) % m.size] = True      # another cell at each step: masking a masked dataset widens the mask
                     P.append(src.mask(m))
                 elif op == 'squeeze':
                     P.append(P[st['i'] - 1].squeeze())
